@@ -51,6 +51,10 @@ def parseAll {K : Type} [Sc K] (l : List String) : Option (List K) := l.mapM Sc.
 
 def fmtAll {K : Type} [Sc K] (l : List K) : String := " ".intercalate (l.map Sc.fmt)
 
+/-- `numpy.finfo(numpy.double).eps = 2^-52`, the threshold of the collinearity guard of
+`fit_general`, written as a rational (exact in `Rat` and in `Float`) -/
+def epsDStr : String := "1/" ++ toString ((2 : Nat) ^ 52)
+
 def parseNats (l : List String) : Option (List Nat) := l.mapM String.toNat?
 
 /-- split a list into chunks of `k` -/
